@@ -40,14 +40,17 @@ MENUS = {
     'full': ['cfg', 'cfgb', 'par', 'list1', 'list2', 'tuple2', 'dict2', 'nt',
              'tmp', 'tuple0', 'list0'],
     'mid': ['cfg', 'list2', 'tuple2', 'dict1', 'tmp'],
+    'tagged': ['cfg', 'list2', 'dict1', 'tvv'],
     'small': ['cfg', 'list2', 'tuple1'],
 }
 
 
 def bounds(tier):
   if tier == 'quick':
-    return {'plans': [['full', 3, 1], ['mid', 4, 1]], 'chains': [50, 150]}
-  return {'plans': [['full', 3, 2], ['full', 4, 1], ['small', 5, 1]],
+    return {'plans': [['full', 3, 1], ['mid', 4, 1], ['tagged', 4, 1]],
+            'chains': [50, 150]}
+  return {'plans': [['full', 3, 2], ['full', 4, 1], ['small', 5, 1],
+                    ['tagged', 4, 2]],
           'chains': [50, 150, 250]}
 
 
@@ -69,6 +72,10 @@ def ref_build(x, memo):
   i = id(x)
   if i in memo:
     return memo[i][1]
+  if _is_tv(x):
+    out = ref_build(x.__arguments__['value'], memo)   # builds to its value
+    memo[i] = (x, out)
+    return out
   if isinstance(x, fdl.Buildable):
     kwargs = {k: ref_build(v, memo) for k, v in _ordered_items(x)}
     fn = x.__fn_or_cls__
@@ -94,6 +101,10 @@ def ref_build(x, memo):
   return out
 
 
+def _is_tv(x):
+  return type(x).__name__ == 'TaggedValueCls'
+
+
 def _ordered_items(b):
   names = [p for p in b.__signature_info__.signature.parameters]
   return [(n, b.__arguments__[n]) for n in names if n in b.__arguments__]
@@ -102,6 +113,18 @@ def _ordered_items(b):
 def pair_walk(cfg, built, fmap, problems, path='<root>'):
   """Parallel walk (no memo) recording the config-object -> built-object map."""
   key = None
+  if _is_tv(cfg):
+    # a stand-alone TaggedValue is transparent: it builds to its value
+    prev = fmap.get(id(cfg))
+    if prev is None:
+      fmap[id(cfg)] = (cfg, built, 'tv', path)
+    elif prev[1] is not built:
+      problems.append(f'the same TaggedValue at {prev[3]} and {path} received '
+                      f'two different built objects')
+      return
+    pair_walk(cfg.__arguments__['value'], built, fmap, problems,
+              path + '.value')
+    return
   if isinstance(cfg, fdl.Buildable):
     key = 'B'
   elif type(cfg) is list:
@@ -220,7 +243,7 @@ def check_root(root, res, case, label):
       by_built[id(b)] = (c, path)
   # (i) one invocation per Config instance
   configs = {cid: c for cid, (c, b, key, p) in fmap.items()
-             if isinstance(c, fdl.Config)}
+             if isinstance(c, fdl.Config) and not _is_tv(c)}
   if len(log) != len(configs):
     res.violation(
         f'C02/invocation-count/{label}',
@@ -229,7 +252,7 @@ def check_root(root, res, case, label):
     return
   serial_of = {}
   for cid, (c, b, key, p) in fmap.items():
-    if isinstance(c, fdl.Config):
+    if isinstance(c, fdl.Config) and not _is_tv(c):
       serial_of[cid] = b.serial
   if len(set(serial_of.values())) != len(serial_of):
     res.violation(f'C02/invocation-count/{label}',
